@@ -42,6 +42,11 @@ func main() {
 		props.ApplyChild()
 		return
 	}
+	if len(os.Args) >= 3 && os.Args[1] == "stress-child" {
+		seed, _ := strconv.ParseInt(os.Args[2], 10, 64)
+		props.StressChild(seed)
+		return
+	}
 	if len(os.Args) < 3 || os.Args[1] != "check" {
 		fmt.Fprintln(os.Stderr, "usage: sidever check <Cxx> [--tier quick|thorough] [--replay file]")
 		os.Exit(2)
